@@ -56,7 +56,8 @@ def shutdown(vc):
 
 @harness('C12', 'return_connection', functions=[HC + 'return_connection'], native='contracts.native.c12:replay')
 def give_back(vc):
-    """ensures in_flight never goes negative through a return (a return follows a borrow: in_flight >= 1) and a defunct/closed
+    """ensures in_flight never goes negative through a return (a return follows a borrow: in_flight >= 1; the return of a timed-out
+    request, stream_was_orphaned=True, leaves the count to the late response) and a defunct/closed
     connection coming back makes the pool replace it (one _replace submitted) or shut down when the host went down"""
     w = P.World(vc)
     n = vc.int('in_flight')
@@ -67,8 +68,15 @@ def give_back(vc):
     c.is_defunct, c.is_closed = broken == 'defunct', broken == 'closed'
     pool, lock = P.host_connection(vc, w, c)
     w.host_goes_down = vc.choice('host_goes_down', [False, True])
-    vc.call(HC + 'return_connection', pool, c)
-    vc.check('post/in_flight-decremented-once-and-non-negative', sym.and_(c.in_flight == n - 1, c.in_flight >= 0))
+    orphaned = vc.choice('stream_was_orphaned', [False, True])
+    if orphaned:
+        # a request that timed out keeps its slot until the late response (or the connection's end) releases it in
+        # Connection.process_msg: the return at timeout time must leave the count alone, or the slot is given back twice
+        vc.call(HC + 'return_connection', pool, c, True)
+        vc.check('orphaned/in_flight-left-to-the-late-response', c.in_flight == n)
+    else:
+        vc.call(HC + 'return_connection', pool, c)
+        vc.check('post/in_flight-decremented-once-and-non-negative', sym.and_(c.in_flight == n - 1, c.in_flight >= 0))
     subs = [e for e in w.log if e[0] == 'submit']
     if broken == 'ok':
         vc.check('ok/no-replacement', subs == [] and pool.attrs['is_shutdown'] is False)
